@@ -216,6 +216,17 @@ package z
 //@   ensures [wip] #count len(result) == ite(len(gcOffs) == 1, 1, len(gcOffs)-1)
 //@   ensures [wip] #offsets forall i int :: 0 <= i && i < len(result) ==> result[i] == gcOffs[i]
 
+// SliceIterate hands the callback only slices that were written (a slice of the chain, non-empty), the
+// cursor moving along the chain.  (work in progress: all 13 obligations discharge, but the hint h-cur needs about
+// a minute, beyond what the lock accepts; tagged wip, in no cone)
+//@ func (b *Buffer) SliceIterate(f func(slice []byte) error) error
+//@   requires GcWfBuffer(b) && GcBufRoom(b, 0) && GcChain(b) && f != nil
+//@   modifies gcCallbacks(f)
+//@   loop 1 modifies gcCallbacks(f)
+//@   loop 1 invariant #cur next == -1 || (exists k int :: 0 <= k && k < len(gcOffs)-1 && next == gcOffs[k])
+//@   at call f#1 assert #h-cur next == -1 || (exists k int :: 0 <= k && k < len(gcOffs)-1 && next == gcOffs[k])
+//@   at call f#1 assert [wip] #written exists k int :: 0 <= k && k < len(gcOffs)-1 && gcSliceAt(slice, b.buf, gcOffs[k]+8) && len(slice) == int(GcBE64(b, gcOffs[k])) && len(slice) > 0
+
 // histogram.go: life-expectancy statistics only; no listed property depends on them.
 //@ func HistogramBounds(minExponent, maxExponent uint32) []float64
 //@   trusted statistics helper outside every property
